@@ -189,6 +189,26 @@ func Run(env *core.Env, p *load.Program, prop string, sel json.RawMessage) (*cor
 		"driver_cmd": drvCmd,
 		"note":       "bounded: real Eval/TryEval SSA unrolled on every enumerated compiled program, inputs fully symbolic; never counted as proved",
 	}
+	if s.has("boundary") {
+		var names []string
+		for _, b := range Boundaries(ts.Thorough) {
+			names = append(names, fmt.Sprintf("%s (%d source nodes)", b.Name, b.Nodes))
+		}
+		res.Extra["bounded"].(map[string]interface{})["boundary_programs"] = names
+	}
+	// the functions whose SSA is executed by the unrolling
+	for _, key := range []string{"Expr.Eval", "Expr.TryEval", "parentNode", "matchesShortCircuit", "executeOperatorProxy", "getNodeValueProxy",
+		"fetchVariableValueProxy", "contains", "isAndOpNode", "isOrOpNode", "node.getNodeType", "reportEvent", "calAndSetEventNode.wrapOpEvent"} {
+		fn := p.Funcs[key]
+		if fn == nil {
+			continue
+		}
+		n := 0
+		for _, b := range fn.Blocks {
+			n += len(b.Instrs)
+		}
+		res.Funcs = append(res.Funcs, core.FuncInfo{Name: key + " (unrolled, bounded tier)", File: p.PosString(fn.Pos()), SSAInstrs: n})
+	}
 	res.Samples = samples
 	return res, nil
 }
@@ -634,7 +654,7 @@ func (pl *plan) samples(obls []*core.Obl, progs map[int]*XProg) []interface{} {
 		if p == nil {
 			continue
 		}
-		out = append(out, map[string]interface{}{"bounded_program": pc.job.Src, "config": ConfigName(pc.job.Mask, pc.job.Ev, pc.job.Costs), "nodes": p.NNodes, "dump": strings.Join(strings.Fields(p.Dump), " "), "table": p.Table})
+		out = append(out, map[string]interface{}{"bounded_program": trunc(pc.job.Src, 300), "config": ConfigName(pc.job.Mask, pc.job.Ev, pc.job.Costs), "nodes": p.NNodes, "dump": trunc(strings.Join(strings.Fields(p.Dump), " "), 300), "table": p.Table})
 	}
 	n := 0
 	for _, o := range obls {
